@@ -8,8 +8,8 @@ run_one() {
   echo "### $id $(( $(date +%s) - t0 ))s :: $(echo "$out" | tail -1 | cut -c1-220)"
   echo "$out" | grep -E "VIOLATION|HARNESS" | head -3
 }
-# two at a time (each check already uses several processes)
-for pair in "C04 C10" "C13 C14" "C26 C36"; do
-  for id in $pair; do run_one $id & done
+# a few at a time (each check already uses several processes)
+for group in "C15 C26 C10" "C36 C04"; do
+  for id in $group; do run_one $id & done
   wait
 done
